@@ -87,7 +87,11 @@ func (bc *Bytecode) fixObjects(modules *ugo.ModuleMap) error {
 					// module name may not present in given map, skip it.
 					continue
 				}
-				o := bmod.(*ugo.BuiltinModule).Attrs[item]
+				builtinMod, ok := bmod.(*ugo.BuiltinModule)
+				if !ok {
+					return fmt.Errorf("module '%s' is not a builtin module", name)
+				}
+				o := builtinMod.Attrs[item]
 				// if item not exists in module, nil will not pass type check
 				want := reflect.TypeOf(obj[item])
 				got := reflect.TypeOf(o)
